@@ -360,6 +360,8 @@ def check_property(prop, tier, seed):
                 notes.append(f"leak report ignored in {r.name}: history abandoned after a predicate failure")
                 real_reps = []
                 reps = []
+                if r.summary is not None:
+                    r.rc = 0  # the only thing the sanitizer had to say was the expected leak
             if real_reps:
                 leginfo["reports"] += len(real_reps)
                 frame = first_repo_frame(text)
